@@ -49,6 +49,31 @@ func C17(ctx *Ctx) {
 		if out == nil || tp == nil || len(tp.E) != 3 || len(ip.Imprec) > 0 {
 			R.Fail("pack", "ToColor15∘ToRGB", pos, fmt.Sprintf("not interpretable: %v", ip.Imprec))
 		} else {
+			// each channel is exactly its five bits of c (never more than 31, also when bit 15 of c is set):
+			// the MulDiv and Luminosity obligations below take channels in 0..31 from this
+			chMsg := ""
+			for ch := 0; ch < 3; ch++ {
+				v, _ := tp.E[ch].(*absint.Int)
+				if v == nil {
+					chMsg = "channel is not an integer"
+					continue
+				}
+				for i := 0; i < v.W; i++ {
+					b := v.Bits[i]
+					if i >= 5 {
+						if b.K != absint.BZero {
+							chMsg = fmt.Sprintf("channel %d bit %d is %s, want 0 (a channel is at most 31)", ch, i, b)
+						}
+					} else if b.K != absint.BLit || b.A != ca || int(b.Idx) != 5*ch+i || b.Neg {
+						chMsg = fmt.Sprintf("channel %d bit %d is %s, want c.%d", ch, i, b, 5*ch+i)
+					}
+				}
+			}
+			if chMsg != "" {
+				R.Fail("pack", "ToRGB:channels", pos, chMsg)
+			} else {
+				R.Pass("pack", "ToRGB:channels", pos, "channel k is bits 5k..5k+4 of c and nothing else, for every 16-bit c")
+			}
 			back, out2 := ip.Call(toC15, tp.E, nil, newState())
 			bv, _ := back.(*absint.Int)
 			msg := ""
